@@ -157,7 +157,6 @@ struct SessMsg {
 }
 
 struct World {
-    a: Client,
     b: Client,
     gid: GraphId,
     corpus: Vec<(&'static str, Vec<u8>)>,
@@ -426,7 +425,8 @@ fn build_world() -> World {
         corpus.push(("hello:Unsubscribe", m));
     }
     let ids = addrs.iter().map(|a| a.id).collect();
-    World { a, b, gid, corpus, sess_x, sess_y, valid_poll: poll_x, valid_poll_sid: SID_X, addrs, ids, buf, rt }
+    drop(a);
+    World { b, gid, corpus, sess_x, sess_y, valid_poll: poll_x, valid_poll_sid: SID_X, addrs, ids, buf, rt }
 }
 
 thread_local! {
@@ -1189,13 +1189,41 @@ pub fn run(ctx: &Ctx) -> ! {
     let mut rep = Report::new(ctx, "exploration");
     rep.assume("postcard (the serde format crate) decodes primitives as documented; the harness's own header parser and message encoder are built on its primitive encodings only");
     rep.assume("each worker thread builds the same two-replica world (TestPolicy, in-memory storage, fixed session ids); cases only read it");
-    // build once on the main thread so a broken world is reported before any case runs
-    let (ncorpus, kinds) = with_world(|w| {
-        let mut k: Vec<&str> = w.corpus.iter().map(|c| c.0).collect();
-        k.sort_unstable();
-        k.dedup();
-        (w.corpus.len(), k.join(","))
+    // build once on the main thread: the world is a handful of complete, valid sync sessions
+    // between two replicas; if those fail the code under test mishandles valid messages
+    let _ = rep.replay_for("valid_sessions");
+    let built = vcommon::catch(|| {
+        with_world(|w| {
+            let mut k: Vec<&str> = w.corpus.iter().map(|c| c.0).collect();
+            k.sort_unstable();
+            k.dedup();
+            (w.corpus.len(), k.join(","), w.sess_x.len(), w.addrs.len())
+        })
     });
+    let (ncorpus, kinds) = match built {
+        Ok((n, k, nx, na)) => {
+            rep.add_part(vcommon::PartResult {
+                name: "valid_sessions".into(),
+                rule: format!("fixed scenario: replicas A and B (TestPolicy, {na} commands incl. a merge) sync both ways until converged, then B serves two full sessions ({nx} messages each) to an empty requester; every poll/receive/add_commands/commit must succeed; {n} messages harvested [{k}]"),
+                evaluations: 1,
+                distinct_nontrivial: 1,
+                exhaustive: false,
+                ..Default::default()
+            });
+            (n, k)
+        }
+        Err((msg, loc)) => {
+            let fl = Failure::new("valid sync sessions between two replicas failed", format!("panic `{msg}` at {loc}"));
+            rep.add_part(vcommon::PartResult {
+                name: "valid_sessions".into(),
+                rule: "fixed scenario of valid sync sessions".into(),
+                evaluations: 1,
+                violation: Some((fl, serde_json::Value::Null)),
+                ..Default::default()
+            });
+            rep.finish()
+        }
+    };
     let entry = "entry points per input: SyncIncoming::decode (+ per variant what a transport does: SyncResponder::receive+poll to the end with the real graph and a requester reading the output, a second responder already bound to another session, SyncRequester::receive_push for a matching and a foreign session, update_heads/start_session/push for Subscribe, should_sync_on_hello for Hello, all getters), SyncRequester::receive for the matching session (twice: replay), for a foreign session, and for session-X requesters in four later protocol states, SubscribeResponse::decode. Oracle: no panic; every returned SyncCommand slice lies inside the input buffer; commands are only accepted if the harness's own header parse says SyncResponse of the requester's session with the next index; foreign session => Err";
     rep.explore(
         "raw_bytes",
